@@ -47,6 +47,11 @@ pub fn ignore_filter(entry: &DirEntry, ignore: &Option<Gitignore>) -> bool {
     match ignore {
         None => true,
         Some(gi) => {
+            // The root of the walk is what was asked to be copied; git
+            // never ignores the top of the work tree either.
+            if entry.depth() == 0 {
+                return true;
+            }
             let path = entry.path();
             let m = gi.matched(path, path.is_dir());
             !m.is_ignore()
